@@ -260,6 +260,9 @@ def compare_outcome(w, ev, real, pre, post, out):
             owner = "C07" if real["kind"].startswith("missing") else \
                     "C05" if a in ("begin", "commit", "abort") else "C01"
             out.append((owner, "call-raised-unexpectedly", {"action": a, "real": real}))
+            if owner == "C01" and a == "bset":
+                # a batch whose operation raises for no reason cannot exit normally (C05, first sentence)
+                out.append(("C05", "batch-operation-raised-unexpectedly", {"action": a, "real": real}))
         return
     if exp["kind"] == "val":
         if real["kind"] != "val":
